@@ -12,6 +12,14 @@ def handle (j : Json) : E String := do
   let id := (j.getObjVal? "id").toOption.getD .null
   let call ← jStr ((j.getObjVal? "call").toOption.getD .null)
   if call == "expr" then return (← handleExpr j)
+  if call == "resolve" then
+    -- primitive stream: `np.arange(n)[ix]`
+    let n ← jNat ((j.getObjVal? "n").toOption.getD .null)
+    let ix ← jIx ((j.getObjVal? "ix").toOption.getD .null)
+    let r := match Ix.resolve n ix with
+      | some l => "[" ++ ",".intercalate (l.map toString) ++ "]"
+      | none => "null"
+    return "{\"id\":" ++ id.compress ++ ",\"res\":" ++ r ++ "}"
   let A ← jOp ((j.getObjVal? "op").toOption.getD .null)
   let pre := s!"\"id\":{id.compress},{header A}"
   match call with
